@@ -342,3 +342,11 @@ def run(ctx):
     ctx.guarded(r, XC.check_call_helpers, "interval")
     ctx.guarded(r, XC.check_frame, "interval")
     ctx.guarded(r, XC.check_choice_protocol, "interval")
+    from .. import a64sem as XS
+
+    r = ctx.rule("R3g", "aarch64 interval add / sub / neg / mul / div / immediate forms: bounds are the interval meaning of the opcode; products and quotients cover all four corners and skip NaN corners", 8)
+    ctx.guarded(r, XS.check_lane_semantics, "interval")
+    r = ctx.rule("R3h", "aarch64 interval reciprocal / quotient / square root answer NaN exactly when the argument leaves the domain; load_imm fills both bounds", 3 + 3 + 1)
+    ctx.guarded(r, XS.check_domain_guards)
+    ctx.guarded(r, XC.check_load_imm, "interval")
+    ctx.guarded(r, XC.check_fixed_area, "interval")
